@@ -9,6 +9,30 @@ from . import common
 NAN = 'NaN'
 
 
+class Next:
+    """symbolic result of the recursive call compare(lhs, rhs, keyIndex + 1); remembers what is done to it"""
+
+    def __init__(self, neg=False):
+        self.neg = neg
+
+    def __neg__(self):
+        return Next(not self.neg)
+
+    def __eq__(self, o):
+        if isinstance(o, Next):
+            return self.neg == o.neg
+        return False
+
+    def __ne__(self, o):
+        return not self.__eq__(o)
+
+    def __hash__(self):
+        return 7 + self.neg
+
+    def __repr__(self):
+        return ('-' if self.neg else '') + 'compare(theLHS, theRHS, theKeyIndex + 1)'
+
+
 def r1_stable(res, facts):
     r = res.rule('C16-R1', 'NodeSorter::sort orders with std::stable_sort (equal keys keep document order); the comparator object is the NodeSortKeyCompare of this sorter', floor=1)
     found = False
@@ -79,7 +103,7 @@ def r2_compare(res, facts):
             if n == 'compare':
                 l, rr, idx = strip_casts(c['args'][0]), strip_casts(c['args'][1]), m.ev(c['args'][2])
                 rec.append((l.get('n'), rr.get('n'), idx))
-                return 'NEXT'
+                return Next()
             return NotImplemented
         m = Machine({pid['theKeyIndex']: 0}, call_hook=hook)
         try:
@@ -89,14 +113,15 @@ def r2_compare(res, facts):
         if base != 0:
             want = -base if desc else base
         elif nkeys > 1:
-            want = 'NEXT'
+            want = Next()
         else:
             want = 0
         site = 'compare(%s %s, %s, keys=%d)' % (kind, ('%s vs %s' % (n1, n2)) if kind == 'number' else 'collation=%d' % base, 'descending' if desc else 'ascending', nkeys)
-        if got == want and (want != 'NEXT' or rec == [('theLHS', 'theRHS', 1)]):
+        isnext = isinstance(want, Next)
+        if got == want and (not isnext or rec == [('theLHS', 'theRHS', 1)]):
             r.ok(site, str(got))
         else:
-            r.violation(site, 'comparator yields %s%s, required %s' % (got, (' via ' + str(rec)) if rec else '', want if want != 'NEXT' else 'compare(theLHS, theRHS, theKeyIndex + 1)'), common.file_line(a))
+            r.violation(site, 'comparator yields %s%s, required %s' % (got, (' with operands ' + str(rec)) if rec and isnext else '', want), common.file_line(a))
     # operator()
     for op in facts.asts('NodeSorter::NodeSortKeyCompare::operator()'):
         rets = [x for x in walk(op['body']) if x['k'] == 'Return']
